@@ -340,6 +340,8 @@ func Gen(cfg Config) func(t *rapid.T) Script {
 				}
 				if k := s.U.Manifests[op.M].Kind; cfg.Retype && (k == "image" || k == "index") && rapid.IntRange(0, 5).Draw(t, "retypeStructured") == 0 {
 					op.Mode = 1 // the same bytes as an opaque document
+				} else if cfg.Retype && (k == "image" || k == "index") && rapid.IntRange(0, 7).Draw(t, "retypeCross") == 0 {
+					op.Mode = 2 // image bytes as an index, index bytes as an image
 				}
 				op.T = -1
 				if rapid.IntRange(0, 2).Draw(t, "tagged") > 0 {
@@ -431,6 +433,33 @@ func Gen(cfg Config) func(t *rapid.T) Script {
 				}
 			}
 			s.Ops = append(s.Ops, op)
+		}
+		if cfg.DeepChain && cfg.Deletes && rapid.IntRange(0, 5).Draw(t, "lateSubject") == 0 {
+			// a tagged manifest whose subject arrives only later: what the subject refers to becomes
+			// reachable from the tag the moment the subject is pushed
+			for mi, m := range s.U.Manifests {
+				if m.SubjectKind != 1 || m.SubjectRef >= mi || (m.Kind != "image" && m.Kind != "index") {
+					continue
+				}
+				sub := s.U.Manifests[m.SubjectRef]
+				if sub.Kind != "image" || sub.Config < 0 {
+					continue
+				}
+				r := 0
+				prereq(r, mi, 0)
+				s.Ops = append(s.Ops, ops.Op{K: "pushManifest", R: r, M: mi, T: 0})
+				if m.Kind == "image" && m.Config >= 0 {
+					s.Ops = append(s.Ops, ops.Op{K: "deleteBlob", R: r, B: m.Config}) // consults the guard
+				}
+				prereq(r, m.SubjectRef, 0)
+				s.Ops = append(s.Ops, ops.Op{K: "pushManifest", R: r, M: m.SubjectRef, T: -1})
+				victim := sub.Config
+				if len(sub.Layers) > 0 {
+					victim = sub.Layers[0]
+				}
+				s.Ops = append(s.Ops, ops.Op{K: "deleteBlob", R: r, B: victim}, ops.Op{K: "getBlob", R: r, B: victim})
+				break
+			}
 		}
 		return s
 	}
